@@ -1190,3 +1190,8 @@ mod test {
     }
 
 }
+
+// Verification hook (add-only): compiled only under `cargo kani` or `--cfg heathcliff_verif`.
+#[cfg(any(kani, heathcliff_verif))]
+#[path = "/verif/incrate/util_basic_v.rs"]
+pub(crate) mod verif_v;
